@@ -203,9 +203,15 @@ def _renorm(ctx, rule):
     return c14.r2_renormalisation(ctx, rule)
 
 
+def _loaders_read_only(ctx, rule):
+    from . import c14
+    return c14.r11_loaders_read_only(ctx, rule)
+
+
 def rules(tier):
     return [('C16.R1', r1_walk_weights), ('C16.R2', r2_uniform_choice), ('C16.R3', r3_seeding), ('C16.R4', r4_limit),
-            ('C16.R5', c01.r8_uniform_scale), ('C16.R6', _renorm)]
+            ('C16.R5', c01.r8_uniform_scale), ('C16.R6', _renorm), ('C16.R7', _loaders_read_only),
+            ('C16.R8', c04.r12_output_point_total)]
 
 
 META = {
